@@ -476,6 +476,7 @@ pub fn translate(repo: &Path, out: &mut Out) {
             variants: vec![("Override", "Override"), ("Default", "Default"), ("Append", "Append"), ("Prepend", "Prepend"), ("Delimiter", "Delim")],
             eq: "beq",
             take_default: "(@nil N)",
+            mcalls: vec![],
             display: vec![],
         };
         let st = &f.block.stmts;
